@@ -169,9 +169,10 @@ def learned_case(item, ctx=None):
       if not (np.abs(kin[:, u] - kpu).max() <= 1e-4 * max(1, abs(kp[-1] - kp[0]))):
         msgs.append("logits %s: keypoints_inputs %s, expected %s" %
                     (L[u].tolist(), kin[:, u].tolist(), kpu.tolist()))
-      if not (np.all(np.diff(kin[:, u]) > 0) and abs(kin[0, u] - kp[0]) < 1e-5 and
+      # "ordered": non-decreasing (a piece may underflow to zero length in float32 for |logit| >= 8)
+      if not (np.all(np.diff(kin[:, u]) >= 0) and abs(kin[0, u] - kp[0]) < 1e-5 and
               abs(kin[-1, u] - kp[-1]) < 1e-4 * max(1, abs(kp[-1]))):
-        msgs.append("logits %s: learned keypoints %s not strictly ordered between the "
+        msgs.append("logits %s: learned keypoints %s not ordered between the "
                     "fixed ends" % (L[u].tolist(), kin[:, u].tolist()))
       ref = rp.evaluate(kpu, K[:, u], xs)
       # evaluate only away from keypoints (kinks move with float32 rounding)
